@@ -357,6 +357,7 @@ class Den:
         self.val, self.lmt, self.err, self.errlmt = {}, {}, {}, {}
         self.st = {n.label: {"tot": 0, "k": 0, "pend": set(), "slack": set(), "idx": 0, "calls": {"s": 0, "e": 0, "x": 0},
                               "fb": None, "started": False} for n in self.nodes}
+        self.kicked = set()      # labels woken for the running cycle by a `k` script op
         self.abandoned = False   # F6: a scheduler node was due in a child cycle that an exception ended
         self.dev = []       # (class, message)
         self.stats = {"o1_slack": 0, "cycles": 0, "user_runs": 0, "errors": 0}
@@ -424,6 +425,10 @@ class Den:
                 st["pend"] = set()
             elif op == "o":
                 emit = num
+            elif op == "k":
+                # graph.schedule_node(<node `num` of the same graph>, now): a node still ahead of the scan runs in this
+                # cycle, a node the scan has passed is not evaluated again (and no plain node is ever due later for it)
+                self.kicked.add(n.label[:n.label.rfind("/") + 1] + str(num))
             elif op == "x":
                 self.thrown = True      # the ops before it took effect; the rest is not executed
                 break
@@ -504,6 +509,7 @@ class Den:
             return (s, port) in ticked
 
         skip_until = None
+        self.kicked = set()
         for n in self.nodes:
             st = self.st[n.label]
             if fail:
@@ -543,7 +549,7 @@ class Den:
                 self_wake = True
             elif k == "fbsrc":
                 self_wake = st["fb"] is not None and st["fb"][0] == t
-            self_wake = self_wake or quirk_wake
+            self_wake = self_wake or quirk_wake or (n.label in self.kicked)
             if k == "nestedhead":
                 continue
             if k == "nestedtail":
@@ -716,19 +722,7 @@ def den_check(p, trace_line, quirk=False):
         if t < p.start or t >= p.end:
             dev.append(("times", "cycle at %d outside [start=%d, end=%d)" % (t, p.start, p.end)))
         logs, engine, fail = d.cycle(t)
-        got = sorted(e for e in c["ev"] if e[:2] in USER_TAGS)
-        if sorted(logs) != got:
-            el, gl = sorted(logs), got
-            miss = [x for x in el if x not in gl]
-            extra = [x for x in gl if x not in el]
-            cls = "userrun"
-            if any(x.startswith("X ") for x in miss + extra):
-                cls = "error"
-            tag = "[F6 abandoned-rearm] " if d.abandoned else ""
-            dev.append((cls, tag + "cycle at %d: user-code runs differ from the dataflow reading: missing %s unexpected %s"
-                        % (t, miss[:4], extra[:4])))
-            return dev, d
-        # ---- C01: order of engine-level evaluations
+        # ---- C01: order of engine-level evaluations (decided on the trace alone, before the comparison of user-code runs)
         seen = []
         plabels = [n.plabel for n in d.nodes]
         shared = {l for l in plabels if plabels.count(l) > 1}     # distinct nodes that print one label
@@ -744,6 +738,18 @@ def den_check(p, trace_line, quirk=False):
                 for r in n.ins:
                     if r[0] in pos and pos[r[0]] > pos[n.label] and n.kind not in ("nestedhead", "nestedtail"):
                         dev.append(("order", "node %s evaluated before its producer %s in cycle %d" % (n.label, r[0], t)))
+        got = sorted(e for e in c["ev"] if e[:2] in USER_TAGS)
+        if sorted(logs) != got:
+            el, gl = sorted(logs), got
+            miss = [x for x in el if x not in gl]
+            extra = [x for x in gl if x not in el]
+            cls = "userrun"
+            if any(x.startswith("X ") for x in miss + extra):
+                cls = "error"
+            tag = "[F6 abandoned-rearm] " if d.abandoned else ""
+            dev.append((cls, tag + "cycle at %d: user-code runs differ from the dataflow reading: missing %s unexpected %s"
+                        % (t, miss[:4], extra[:4])))
+            return dev, d
         last = t
         if fail:
             if res != "run-err node-failed(%s)" % fail:
@@ -1114,6 +1120,34 @@ def gen_sigpassive(rng):
         args = [("~" if i in marked else "") + str(srcs[i]) for i in range(3)]
         body.append(Stmt(lbl, "gate3", args + [rng.choice(["VVV", "VVV", "UUU", "VUV"]) + act])); g = lbl; lbl += 1
         body.append(Stmt(lbl, "sink", [g])); lbl += 1
+    p.root = kahn_order(body)
+    return p
+
+
+def gen_kick(rng):
+    """a scheduler node that, from inside its evaluation, wakes OTHER nodes of its graph for the current time
+    (graph.schedule_node): a plain node ranked after it runs in this very cycle, a node the scan has already passed is
+    not evaluated again - every node at most once per cycle, producers first (C01)"""
+    p = Prog()
+    p.end = p.start + rng.choice([12, 18])
+    p.ticks[901] = gen_ticks(rng, p.start, rng.randint(2, 6), 12)
+    if p.ticks[901][0][0] != p.start:
+        p.ticks[901].insert(0, (p.start, rng.randint(1, 9)))
+    # plain nodes before and after the kicker (in rank order: 1 src, 2 acc, 3 pass | 4 kicker | 5 acc, 6 pass, sinks)
+    body = [Stmt(1, "src", [901]), Stmt(2, "acc", [1]), Stmt(3, "pass", [2])]
+    sc = gen_script(rng)
+    while len(sc) < 5:
+        sc.append(["s%d" % rng.choice([1, 2, 3])])
+    behind, ahead = [2, 3], [5, 6]
+    for ops in sc[1:]:
+        for _ in range(rng.choice([0, 1, 1, 2])):
+            ops.append("k%d" % rng.choice(behind + ahead + ahead))
+    if not any(t[0] == "s" for t in sc[0]):
+        sc[0].append("s%d" % rng.choice([0, 1, 2]))
+    p.scripts[902] = sc
+    body.append(Stmt(4, "script", [902, 3] if rng.random() < 0.6 else [902]))
+    body += [Stmt(5, "acc", [4 if rng.random() < 0.5 else 3]), Stmt(6, "pass", [5]),
+             Stmt(7, "sink", [6]), Stmt(8, "sink", [3])]
     p.root = kahn_order(body)
     return p
 
